@@ -5,6 +5,13 @@ import GojaModel.C03.Lemmas5
 
 namespace GojaModel.C03
 
+theorem apiNode_spec {runF : RunF} (HG : HypG runF) (HA : HypA runF) (lf : Nat) (k : Boundary) (b : Beh)
+    (s : Vm) (hI : Inv s) : ApiGood s (apiNode lf runF k b s) := by
+  cases k with
+  | try_ => exact tryB_spec HG HA b s hI
+  | runWrapped => exact runWrapped_spec HG HA lf b s hI
+  | runProgramRec => exact runProgramRec_spec HG HA 7 b s hI
+
 /-- one layer of the interpreter preserves the discipline for EVERY node kind -/
 theorem step_good {runF : RunF} (HG : HypG runF) (HA : HypA runF) (lf : Nat) :
     ∀ (b : Beh) (s : Vm), Inv s → Good s (step lf runF b s) := by
@@ -46,11 +53,25 @@ theorem step_good {runF : RunF} (HG : HypG runF) (HA : HypA runF) (lf : Nat) :
     · rename_i h; exact tryStmt_good HG HA hc hf h body handler fin s hI
     · exact HG body s hI
   | goCall n f b => simpa [step] using goCall_good HG HA n f b s hI
-  | api k b =>
-    cases k with
-    | try_ => simpa [step] using (tryB_spec HG HA b s hI).toGood
-    | runWrapped => simpa [step] using (runWrapped_spec HG HA lf b s hI).toGood
-    | runProgramRec => simpa [step] using (runProgramRec_spec HG HA 7 b s hI).toGood
+  | api k b => simpa [step] using (apiNode_spec HG HA lf k b s hI).toGood
+  | swallow k b =>
+    simp only [step]
+    have ha := apiNode_spec HG HA lf k b s hI
+    generalize apiNode lf runF k b s = r at ha
+    obtain ⟨o, s1⟩ := r
+    obtain ⟨h1, h2, h3⟩ := ha
+    unfold swallowRes
+    cases o with
+    | normal => exact ⟨by simpa [GoodCtl] using h2, fun _ => h3 (by simp)⟩
+    | thrown => exact ⟨by simpa [GoodCtl] using h2, fun _ => h3 (by simp)⟩
+    | stuck => exact absurd rfl h1
+    | fatal =>
+      simp only
+      split
+      · rename_i hc
+        simp only [Bool.and_eq_true, beq_iff_eq] at hc
+        exact ⟨by simpa [GoodCtl] using h2, fun _ => hc.2⟩
+      · exact ⟨by simpa [GoodCtl] using h2.toExt false, by simp [Quiet]⟩
   | job b =>
     have : Same s { s with jobQueue := s.jobQueue ++ [b] } := ⟨rfl, rfl, rfl, rfl, rfl, rfl, rfl, rfl⟩
     exact ⟨by simpa [step, GoodCtl] using this, fun _ => rfl⟩
@@ -66,7 +87,7 @@ theorem run_good : ∀ (fuel : Nat), HypG (run fuel) ∧ HypA (run fuel) := by
   | succ n ih =>
     refine ⟨fun b s hI => ?_, fun b s hI => ?_⟩
     · exact step_good ih.1 ih.2 n b s hI
-    · simpa [run, step] using tryB_spec ih.1 ih.2 b s hI
+    · simpa [run, step, apiNode] using tryB_spec ih.1 ih.2 b s hI
 
 /-! ### the outermost calls -/
 
